@@ -34,7 +34,7 @@ Theorem C10_absent : forall o,
   (o_nextseq o = None -> stages_of_kind o KNextseq = []) /\
   (o_qcut o = None -> stages_of_kind o KQual = []) /\
   (o_adapters o = [] -> stages_of_kind o KAdapters = []) /\
-  (o_poly_a o = false -> stages_of_kind o KPolyA = []) /\
+  (o_poly_a o = false -> o_poly_t o = false -> stages_of_kind o KPolyA = []) /\
   (o_length o = None -> stages_of_kind o KLength = []) /\
   (o_trim_n o = false -> stages_of_kind o KTrimN = []) /\
   (o_zero_cap o = false -> stages_of_kind o KZeroCap = []).
